@@ -28,6 +28,9 @@ def _ens_counts(I, env):
 
 CASES = [Case(CTAB + "::_is_v2000_compatible", "", setup=_setup_counts, ensures=[("version", _ens_counts)], overflow=False)]
 MIN_OBLIGATIONS = 1
+# the property as a whole is decided by the bounded stand-in: the evidence is written at that level (the
+# obligations of the one proved helper are listed in the coverage as well)
+EVIDENCE_LEVEL = "exploration"
 ASSUMPTIONS = ["bounded: molecules of 1..4 atoms over pools of elements, charges -4..4, every BondType, boundary coordinates; V2000 / V3000 / "
                "automatic version; 1000-atom chain; SDF records with six metadata key shapes; RDKit round trip for 1..3 models"]
 UNVERIFIED = ["everything in io/mol and interface/rdkit except the version predicate _is_v2000_compatible is unproved"]
